@@ -126,9 +126,10 @@ PROPS = {
         "units": [
             {"kind": "verus", "unit": "gslice"},
             {"kind": "verus", "unit": "gstep"},
+            {"kind": "verus", "unit": "gcons"},
         ],
         "unreached": [
-            "the adaptors SuccessorsUntil, Zip, Chain, Repeat, WithCount, Group, Windows, Product of XGenerator::_iter; that std's filter_map / map_while / map / scan apply the step closure to every element in order (documented meaning, trusted); laziness / look-ahead, re-iterability, chain flattening, the consumers, and the adaptors written in the xray language",
+            "the adaptors SuccessorsUntil, Zip, Chain, Repeat, WithCount, Group, Windows, Product of XGenerator::_iter; that std's filter_map / map_while / map / scan apply the step closure to every element in order (documented meaning, trusted); laziness / look-ahead, re-iterability, chain flattening, the consumers nth / join / the reducing ones (to_array, len, last, get are under contract from the statement after the downcast), and the adaptors written in the xray language",
         ],
         "assumptions": ["V-gstep: the evaluator as a deterministic function `apply`; predicates answer a Bool (type fact, C01); std's filter_map / map_while / map / scan apply the closure to each element in order",
                         "std::iter::Iterator::{skip, take} by their documented meaning on a sequence view (finite-prefix model of a stream)",
@@ -241,8 +242,8 @@ CLAIMS = {
     },
     "C16": {
         "engine": "vx+verus",
-        "technique": "contract-based deductive verification: Verus contracts on the real text of the Slice arm of XGenerator::_iter, of the merge arithmetic (start, end, guard) of XGenerator::slice, and of the element closures of the adaptors Filter, TakeWhile, SkipUntil, Map, Aggregate",
-        "text": "Narrow (mechanisms): the element step of Filter (kept exactly when the predicate answers true), TakeWhile (the stream ends at the first false), SkipUntil (dropped until the first true, then everything passes and the predicate is no longer consulted), Map (replaced by the function's answer) and Aggregate (state := f(state, element), which is the element yielded) is proved for every incoming element, including that a violation is handed on and a callback's error value is the element yielded. Skip/take composition: `Slice(inner, start, end)` is proved to yield exactly elements [start, end) of the inner stream, the merged bounds of nested slices are proved to be the composition (lemma over the window view) and overflow-free under the guard the code tests.",
+        "technique": "contract-based deductive verification: Verus contracts on the real text of the Slice arm of XGenerator::_iter, of the merge arithmetic (start, end, guard) of XGenerator::slice, and of the element closures of the adaptors Filter, TakeWhile, SkipUntil, Map, Aggregate, and of the loops of the consumers to_array / len / last / get",
+        "text": "Narrow (mechanisms): the consumers to_array, len, last and get are proved to return the array of all elements in order, their number, the last element (an error value for the empty generator) and the element at the requested index (an error value beyond the end), and to end with the leftmost error value / a violation when an element is one; the element step of Filter (kept exactly when the predicate answers true), TakeWhile (the stream ends at the first false), SkipUntil (dropped until the first true, then everything passes and the predicate is no longer consulted), Map (replaced by the function's answer) and Aggregate (state := f(state, element), which is the element yielded) is proved for every incoming element, including that a violation is handed on and a callback's error value is the element yielded. Skip/take composition: `Slice(inner, start, end)` is proved to yield exactly elements [start, end) of the inner stream, the merged bounds of nested slices are proved to be the composition (lemma over the window view) and overflow-free under the guard the code tests.",
         "note": "The other adaptors, laziness and re-iterability are listed as unreached; std skip/take are axiomatised on a finite-prefix sequence view and filter_map / map_while / map / scan are trusted to apply the step closure to each element in order; the evaluator is a deterministic function `apply`.",
     },
     "C19": {
